@@ -17,11 +17,14 @@ Local Open Scope N_scope.
 Definition xtime (b : N) : N :=
   if 128 <=? b then N.lxor (2 * b) 0x11b else 2 * b.
 
-(* a . b by the shift-and-add of section 4.2.1: sum over the set bits i of b of xtime^i a *)
+(* a . b by the shift-and-add of section 4.2.1: sum over the set bits i of b of xtime^i a
+   (stops as soon as no bit of b is left) *)
 Fixpoint gf_mul_bits (n : nat) (a b : N) : N :=
   match n with
   | O => 0
-  | S n' => N.lxor (if N.odd b then a else 0) (gf_mul_bits n' (xtime a) (N.div2 b))
+  | S n' =>
+    if b =? 0 then 0
+    else N.lxor (if N.odd b then a else 0) (gf_mul_bits n' (xtime a) (N.div2 b))
   end.
 Definition gf_mul (a b : N) : N := gf_mul_bits 8 a b.
 
@@ -67,7 +70,7 @@ Definition sbox_rows : list (list N) :=
 
 (* table lookup on bytes, the definition elsewhere: equal to [sbox] on ALL of N (AesProofs.sbox_fast_eq) *)
 Definition sbox_fast (x : N) : N :=
-  if x <? 256 then nth (N.to_nat (x mod 16)) (nth (N.to_nat (x / 16)) sbox_rows []) 0
+  if x <? 256 then nth (N.to_nat (N.land x 15)) (nth (N.to_nat (N.shiftr x 4)) sbox_rows []) 0
   else sbox x.
 
 (* ------------------------------------------------------------------ the state, section 3.4 *)
@@ -85,10 +88,10 @@ Section WithSbox.
 
   (* one column times the fixed matrix of (5.6) *)
   Definition mix_column (a0 a1 a2 a3 : N) : list N :=
-    [N.lxor (N.lxor (gf_mul 2 a0) (gf_mul 3 a1)) (N.lxor a2 a3);
-     N.lxor (N.lxor a0 (gf_mul 2 a1)) (N.lxor (gf_mul 3 a2) a3);
-     N.lxor (N.lxor a0 a1) (N.lxor (gf_mul 2 a2) (gf_mul 3 a3));
-     N.lxor (N.lxor (gf_mul 3 a0) a1) (N.lxor a2 (gf_mul 2 a3))].
+    [N.lxor (N.lxor (gf_mul a0 2) (gf_mul a1 3)) (N.lxor a2 a3);
+     N.lxor (N.lxor a0 (gf_mul a1 2)) (N.lxor (gf_mul a2 3) a3);
+     N.lxor (N.lxor a0 a1) (N.lxor (gf_mul a2 2) (gf_mul a3 3));
+     N.lxor (N.lxor (gf_mul a0 3) a1) (N.lxor a2 (gf_mul a3 2))].
   Definition MixColumns (s : list N) : list N :=
     flat_map (fun c => mix_column (nth (4 * c)%nat s 0) (nth (4 * c + 1)%nat s 0)
                                   (nth (4 * c + 2)%nat s 0) (nth (4 * c + 3)%nat s 0)) [0; 1; 2; 3]%nat.
